@@ -22,6 +22,7 @@ import (
 	"github.com/pion/webrtc/v4"
 
 	"github.com/jech/galene/token"
+	"github.com/jech/galene/verifhook"
 )
 
 var Directory, DataDirectory string
@@ -135,6 +136,7 @@ func (g *Group) SetLocked(locked bool, message string) {
 		g.locked = nil
 	}
 	clients := g.getClientsUnlocked(nil)
+	verifhook.At("group.SetLocked.locked", g, locked)
 	g.mu.Unlock()
 
 	for _, c := range clients {
@@ -610,6 +612,7 @@ func AddClient(group string, c Client, creds ClientCredentials) (*Group, error) 
 
 	g.mu.Lock()
 	defer g.mu.Unlock()
+	verifhook.At("group.AddClient.locked", g, c)
 
 	clients := g.getClientsUnlocked(nil)
 
@@ -682,6 +685,7 @@ func AddClient(group string, c Client, creds ClientCredentials) (*Group, error) 
 	}
 	g.clients[id] = c
 	g.timestamp = time.Now()
+	verifhook.At("group.AddClient.admitted", g, c, len(g.clients), g.locked != nil)
 
 	c.Joined(g.Name(), "join")
 
@@ -715,6 +719,7 @@ func autoLockKick(g *Group) {
 	if g.description.Autolock && g.locked == nil {
 		m := "this group is locked"
 		g.locked = &m
+		verifhook.At("group.autoLockKick.locked", g)
 		for _, c := range clients {
 			c.Joined(g.Name(), "change")
 		}
@@ -749,7 +754,9 @@ func DelClient(c Client) {
 	delete(g.clients, c.Id())
 	g.timestamp = time.Now()
 	clients := g.getClientsUnlocked(nil)
+	verifhook.At("group.DelClient.locked", g, c, len(g.clients))
 	g.mu.Unlock()
+	verifhook.At("group.DelClient.unlocked", g, c)
 
 	c.Joined(g.Name(), "leave")
 	for _, cc := range clients {
